@@ -32,12 +32,16 @@ pub enum Ev {
     Repair { t: u64, r: usize, peer: usize, d1: u64, d2: u64, d3: u64, rm_first: bool },
     #[serde(rename = "purge")]
     Purge { t: u64, r: usize },
+    /// full-state sync: replica `r` merges a copy of `peer`'s set taken at t, delivered at t+d
+    /// (the CRDT's own merge; scenarios that use it are judged on the local purge facts only)
+    #[serde(rename = "merge")]
+    Merge { t: u64, r: usize, peer: usize, d: u64 },
 }
 
 impl Ev {
     fn t(&self) -> u64 {
         match self {
-            Ev::Op { t, .. } | Ev::Repair { t, .. } | Ev::Purge { t, .. } => *t,
+            Ev::Op { t, .. } | Ev::Repair { t, .. } | Ev::Purge { t, .. } | Ev::Merge { t, .. } => *t,
         }
     }
 }
@@ -63,6 +67,7 @@ enum Internal {
     RepairDiff { r: usize, peer: usize, snap: Rc<Set>, reply_ts: HLCTimestamp, d2: u64, d3: u64, rm_first: bool },
     RepairRemovals { r: usize, rems: Vec<(Key, HLCTimestamp)>, then_mods: Option<(u64, usize, Vec<Key>)> },
     RepairMods { r: usize, peer: usize, keys: Vec<Key>, then_rems: Option<(u64, Vec<(Key, HLCTimestamp)>)> },
+    MergeState { r: usize, snap: Rc<Set> },
 }
 
 struct Queued {
@@ -97,6 +102,30 @@ struct Run {
     rejected_after_purge_checks: u64,
     local_violations: Vec<(String, String)>,
     clock_errors: u64,
+    /// per replica: deletes it has purged so far
+    purged_log: Vec<Vec<(Key, HLCTimestamp)>>,
+    still_rejects_checks: u64,
+}
+
+/// "... and afterwards still rejects any operation from the deleting node that is not newer than
+/// the purged delete": re-probed after every later event on the replica.
+fn check_still_rejects(run: &mut Run, r: usize, when: &str) {
+    let n = run.purged_log[r].len();
+    for (k, ts) in run.purged_log[r].iter().skip(n.saturating_sub(6)).copied().collect::<Vec<_>>() {
+        for key in [k, 9_999_998u64] {
+            run.still_rejects_checks += 1;
+            let will = run.sets[r].will_apply(key, ts);
+            let mut c = run.sets[r].clone();
+            let ret = c.insert_with_source(0, key, ts);
+            if will || ret {
+                run.local_violations.push((
+                    "C08/op-not-newer-than-purged-delete-accepted-later".into(),
+                    format!("replica {r}, {when}: an insert of key {key} at {} (the stamp of a delete of key {k} this replica purged earlier) from the deleting node: will_apply={will} returned={ret}", fmt_ts(ts)),
+                ));
+                return;
+            }
+        }
+    }
 }
 
 fn gated_apply(set: &mut Set, source: usize, items: &[(Key, HLCTimestamp, bool)]) {
@@ -174,6 +203,8 @@ fn simulate(sc: &Scenario, with_purge: bool, sim_t: &Rc<Cell<u64>>, out: &mut Ou
         rejected_after_purge_checks: 0,
         local_violations: Vec::new(),
         clock_errors: 0,
+        purged_log: (0..n).map(|_| Vec::new()).collect(),
+        still_rejects_checks: 0,
     };
     let mut heap: BinaryHeap<Queued> = BinaryHeap::new();
     let mut seq = 0u64;
@@ -235,7 +266,13 @@ fn simulate(sc: &Scenario, with_purge: bool, sim_t: &Rc<Cell<u64>>, out: &mut Ou
                         run.purged += p.len() as u64;
                         run.trace.u64(3).u64(*r as u64).u64(p.len() as u64);
                         check_purge_local(&before, &run.sets[*r], &p, &mut run.local_violations, &mut run.rejected_after_purge_checks);
+                        run.purged_log[*r].extend(p);
                     }
+                },
+                Ev::Merge { r, peer, d, .. } => {
+                    let snap = Rc::new(run.sets[*peer].clone());
+                    seq += 1;
+                    heap.push(Queued { at: ev.t() + d, seq, what: Internal::MergeState { r: *r, snap } });
                 },
             }
         } else {
@@ -248,6 +285,12 @@ fn simulate(sc: &Scenario, with_purge: bool, sim_t: &Rc<Cell<u64>>, out: &mut Ou
                     }
                     gated_apply(&mut run.sets[to], 0, &[(op.key, op.ts(), op.del)]);
                     run.trace.u64(2).u64(to as u64).u64(op.ts().as_u64());
+                    check_still_rejects(&mut run, to, "after a direct delivery");
+                },
+                Internal::MergeState { r, snap } => {
+                    run.sets[r].merge((*snap).clone());
+                    run.trace.u64(7).u64(r as u64);
+                    check_still_rejects(&mut run, r, "after merging a peer's state");
                 },
                 Internal::RepairDiff { r, peer, snap, reply_ts, d2, d3, rm_first } => {
                     if run.clocks[r].recv(&reply_ts).is_err() {
@@ -267,6 +310,7 @@ fn simulate(sc: &Scenario, with_purge: bool, sim_t: &Rc<Cell<u64>>, out: &mut Ou
                     let items: Vec<(Key, HLCTimestamp, bool)> = rems.iter().map(|(k, t)| (*k, *t, true)).collect();
                     gated_apply(&mut run.sets[r], 1, &items);
                     run.trace.u64(5).u64(r as u64).u64(items.len() as u64);
+                    check_still_rejects(&mut run, r, "after repair removals");
                     if let Some((d, peer, keys)) = then_mods {
                         seq += 1;
                         heap.push(Queued { at: q.at + d, seq, what: Internal::RepairMods { r, peer, keys, then_rems: None } });
@@ -277,6 +321,7 @@ fn simulate(sc: &Scenario, with_purge: bool, sim_t: &Rc<Cell<u64>>, out: &mut Ou
                     let items: Vec<(Key, HLCTimestamp, bool)> = keys.iter().filter_map(|k| run.sets[peer].get(k).map(|t| (*k, *t, false))).collect();
                     gated_apply(&mut run.sets[r], 1, &items);
                     run.trace.u64(6).u64(r as u64).u64(items.len() as u64);
+                    check_still_rejects(&mut run, r, "after repair modifications");
                     if let Some((d, rems)) = then_rems {
                         seq += 1;
                         heap.push(Queued { at: q.at + d, seq, what: Internal::RepairRemovals { r, rems, then_mods: None } });
@@ -359,6 +404,11 @@ fn validate(sc: &Scenario) -> Result<(), String> {
                     return Err("bad replica".into());
                 }
             },
+            Ev::Merge { r, peer, .. } => {
+                if *r >= n || *peer >= n || r == peer {
+                    return Err("bad merge pair".into());
+                }
+            },
         }
     }
     Ok(())
@@ -375,7 +425,7 @@ impl Check for C08 {
         "E0 replica-network engine, hour-scale virtual time: 2-4 real OrSWotSet<2> + HLCTimestamp replicas, direct source + pull-repair source, per-node clock skew, purge at arbitrary replicas and moments; every scenario is executed twice (with and without its purge events)"
     }
     fn rule(&self) -> &'static str {
-        "Cases: 2-4 replicas with wall-clock skew up to +-12 min, 4-40 put/delete ops on 1-5 keys spread over 0.5-8 simulated hours, each op delivered to every other replica after a seeded delay <= dmax (5 s .. 40 min; dmax + skew span < 59 min, re-validated), with duplicates, or - lost direct message - by a forced repair inside the same bound; 0-12 extra repairs whose snapshot/diff/removal/modification steps are separately delayed and ordered, and 0-10 purge events at arbitrary replicas and times (plus purges between closing rounds). Oracles: local purge facts at every purge; differential (identical scenario without purge events must end with identical live ids+timestamps on every replica); absolute last-writer-wins when the purge-free run matches it. Non-trivial = at least one tombstone was actually purged and >= 1 delete issued. Distinct = hash of the event-kind schedule and final state."
+        "Cases: 2-4 replicas with wall-clock skew up to +-12 min, 4-40 put/delete ops on 1-5 keys spread over 0.5-8 simulated hours, each op delivered to every other replica after a seeded delay <= dmax (5 s .. 40 min; dmax + skew span < 59 min, re-validated), with duplicates, or - lost direct message - by a forced repair inside the same bound; 0-12 extra repairs whose snapshot/diff/removal/modification steps are separately delayed and ordered, and 0-16 purge events at arbitrary replicas and times (plus purges between closing rounds); a fifth of the cases additionally merge full peer states (OrSWotSet::merge) at seeded times - those are judged on the local facts only. Oracles: local purge facts at every purge, and after every later event on that replica a probe that an operation of the deleting node carrying the purged delete's stamp is still refused; differential (identical scenario without purge events must end with identical live ids+timestamps on every replica); absolute last-writer-wins when the purge-free run matches it. Non-trivial = at least one tombstone was actually purged and >= 1 delete issued. Distinct = hash of the event-kind schedule and final state."
     }
     fn assumptions(&self) -> Vec<String> {
         vec![
@@ -393,8 +443,8 @@ impl Check for C08 {
     }
     fn budget(&self, tier: Tier) -> Budget {
         match tier {
-            Tier::Quick => Budget { wall_secs: 25, max_cases: 60_000, checkpoint_every: 1024, workers: 16 },
-            Tier::Thorough => Budget { wall_secs: 300, max_cases: 6_000_000, checkpoint_every: 1024, workers: 16 },
+            Tier::Quick => Budget { wall_secs: 45, max_cases: 500_000, checkpoint_every: 1024, workers: 16 },
+            Tier::Thorough => Budget { wall_secs: 900, max_cases: 20_000_000, checkpoint_every: 1024, workers: 16 },
         }
     }
     fn generate(&self, seed: u64, idx: u64, _tier: Tier) -> Value {
@@ -460,6 +510,16 @@ impl Check for C08 {
         for _ in 0..rng.gen_range(0..=16) {
             events.push(Ev::Purge { t: rng.gen_range(total / 3..total + dmax_ms), r: rng.gen_range(0..n) });
         }
+        if rng.gen_bool(0.2) {
+            for _ in 0..rng.gen_range(1..=8) {
+                let r = rng.gen_range(0..n);
+                let mut peer = rng.gen_range(0..n);
+                if peer == r {
+                    peer = (peer + 1) % n;
+                }
+                events.push(Ev::Merge { t: rng.gen_range(0..total + dmax_ms), r, peer, d: rng.gen_range(0..60_000) });
+            }
+        }
         events.sort_by_key(|e| e.t());
         let base_ms = rng.gen_range(1_000_000_000u64..60_000_000_000) / 4 * 4;
         serde_json::to_value(Scenario { replicas: n, skew_ms, dmax_ms, base_ms, events, purge_in_closing: rng.gen_bool(0.5) }).unwrap()
@@ -491,6 +551,8 @@ impl Check for C08 {
         }
         out.fault_n("tombstones_purged", with.purged);
         out.probe_n("older_op_refused_after_purge_checks", with.rejected_after_purge_checks);
+        out.probe_n("still_refused_later_checks", with.still_rejects_checks);
+        let uses_merge = sc.events.iter().any(|e| matches!(e, Ev::Merge { .. }));
         out.probe_n("clock_errors", with.clock_errors);
         if with.issued != without.issued {
             return Outcome::invalid("harness: purge changed the issued timestamps");
@@ -502,6 +564,11 @@ impl Check for C08 {
             out.probe("purge_free_run_not_lww");
         }
         for r in 0..n {
+            if uses_merge {
+                // full-state merges are not the store's replication protocol: such scenarios are
+                // judged on the local purge facts only
+                break;
+            }
             let a = listing(&with.sets[r]).0;
             let b = listing(&without.sets[r]).0;
             if a != b {
@@ -528,6 +595,7 @@ impl Check for C08 {
                 },
                 Ev::Repair { .. } => out.fault("repair_exchange"),
                 Ev::Purge { .. } => out.fault("purge_event"),
+                Ev::Merge { .. } => out.fault("full_state_merge"),
             }
         }
         if sc.skew_ms.iter().any(|s| *s != 0) {
@@ -539,6 +607,7 @@ impl Check for C08 {
                 Ev::Op { r, key, del, .. } => sig.u64(1).u64(*r as u64).u64(*key).u64(*del as u64),
                 Ev::Repair { r, peer, rm_first, .. } => sig.u64(2).u64(*r as u64).u64(*peer as u64).u64(*rm_first as u64),
                 Ev::Purge { r, .. } => sig.u64(3).u64(*r as u64),
+                Ev::Merge { r, peer, .. } => sig.u64(4).u64(*r as u64).u64(*peer as u64),
             };
         }
         let mut fp = Fnv::new();
